@@ -95,6 +95,8 @@ func ttlOf(cls string) (string, bool) {
 	switch cls {
 	case "zero":
 		return "0s", true
+	case "neg":
+		return "-30s", true
 	case "short":
 		return "12s", true
 	case "long":
